@@ -86,9 +86,13 @@ CLAIMS = {
          "TLA+ spec CoinSet: selectors as relations (distinct offered coins, MaxInputs, total = target or >= target+MinChange; shortest qualifying prefix of the list / of some descending order with free ties; average value-age for min-priority) and the coin set as a sequence; MC_CoinSet checks the relations are satisfiable exactly when a qualifying prefix exists over all small coin lists and generates every push/pop/shift/read history of bounded depth; all four real selectors on exhaustive small lists and random lists up to 12 coins, and real coin-set histories, are judged by TLC trace validation",
          "small-scope model checking of the relations plus TLC trace validation",
          "pointer identity of coins; no completeness demanded of the min-priority selector"),
+ "C08": ("DESIGN.md §4 C08",
+         "TLA+ spec Robust: one total action per untrusted-input entry point with outcome in {ok, err} and bounds on time and allocation as functions of the input length; TLC generates adversarial inputs from the parser specifications (all CashAddr strings whose 40-bit checksum verifies over fewer than eight symbols, Gen_Robust) and the harness adds degenerate framings, count maxima, truncations/mutations of valid blocks, transactions, keys, filter-load, merkle-block, GCS and JSON inputs; each call is executed three times on the real code (panics recovered, 10 s deadline, process death journalled) and judged by TLC trace validation",
+         "TLC trace validation of totality / time / allocation for fourteen entry points on adversarially constructed inputs",
+         "time and memory are measured, only bounded by the spec; hangs by deadline"),
 }
 
-NOT_YET = "check not built yet in this round; see DESIGN.md for the planned TLA+ model"
+NOT_YET = "check not built yet; see DESIGN.md for the planned TLA+ model"
 
 
 def main():
